@@ -33,7 +33,7 @@ def apply(copy: str, rel: str, old: str, new: str) -> None:
 
 
 def run_check(copy: str, prop: str, tier: str, scale: float, seed: int = 1):
-    env = dict(os.environ, VERIF_REPO=copy, VERIF_SEED=str(seed))
+    env = dict(os.environ, VERIF_REPO=copy, VERIF_SEED=str(seed), VERIF_EVIDENCE_DIR=os.path.join(copy, ".verif-evidence"))
     t = time.time()
     p = subprocess.run([os.path.join(VERIF, "run.py"), "check", prop, "--tier", tier, "--scale", str(scale)], env=env,
                        capture_output=True, text=True)
